@@ -134,6 +134,15 @@ class FuncModel:
                 out.append((d, v))
         return out
 
+    def deref(self, e: ast.AST | None, at: N | None, depth: int = 0) -> ast.AST | None:
+        """The expression a local name stands for: follows `x = <expr>` when exactly one definition reaches `at`
+        and nothing the expression reads was written since; any other expression is returned unchanged."""
+        if isinstance(e, ast.Name) and at is not None and depth < 6:
+            vd = self.value_defs(e.id, at)
+            if len(vd) == 1 and vd[0][1] is not None and not self.stale(vd[0][0], at, vd[0][1]):
+                return self.deref(vd[0][1], vd[0][0], depth + 1)
+        return e
+
     # ----------------------------------------------------------------- purity / transparency
     def _callee_name(self, c: ast.Call) -> str:
         if isinstance(c.func, ast.Name):
